@@ -156,11 +156,11 @@ def run_urls(pos, n):
 TOPS = ['http://s/css/a.css', 'http://s/a.css', 'file:///t/css/sub/a.css']
 # href forms for an edge; {n} is the target's unique name
 HREFS = ['{n}.css', 'd/{n}.css', '../{n}.css', './d/../{n}.css', '/root/{n}.css', 'http://o/x/{n}.css', '//h2/y/{n}.css',
-         'd/e/../{n}.css']
+         'd/e/../{n}.css', '/{n}.css']
 MEDIA = ['', 'tv', 'print, tv']
 # url() forms inside a sheet; {n} unique
 URLS = ['{n}.png', 'img/{n}.png', '../{n}.png', '/abs/{n}.png', 'http://p/{n}.png', '//q/{n}.png', './{n}.png?x=1#f',
-        '../../{n}.png']
+        '../../{n}.png', 'a%20{n}.png', 'dir{n}/']
 KINDS = ['plain', 'missing', 'unwrappable-page', 'unwrappable-namespace', 'with-media-rule']
 
 
